@@ -355,9 +355,45 @@ class Analyzer:
                     not (named & VIEW):
                 ok = True
                 rule = "R2: K(**E.model_dump(), extra fields) - position, cost and fitness come from an existing agent"
+            elif self._carrier_copy(node, owner):
+                ok = True
+                rule = ("R4: position and cost are read from one carrier object whose class binds both, together, from one "
+                        "agent (and never writes them otherwise); fitness = calculate_fitness(that cost, direction)")
             else:
                 rule = "agent constructed from raw values (position / cost / fitness not taken from _init_agent)"
             self.add("PROV", ci.name, f"{owner.name}.{fname}", node, ast.unparse(node)[:90], ok, rule, owner.file)
+
+    def _carrier_copy(self, node, owner):
+        """K(position=E.representation|position, cost=E.cost, fitness=calculate_fitness(E.cost, tt)) with one base E whose
+        class (in the same module) sets its position and cost fields only together, from `agent.position` / `agent.cost`"""
+        kw = {k.arg: k.value for k in node.keywords if k.arg}
+        if node.args or set(kw) != {"position", "cost", "fitness"}:
+            return False
+        p, c, f = kw["position"], kw["cost"], kw["fitness"]
+        if not (isinstance(p, ast.Attribute) and p.attr in ("representation", "position") and isinstance(c, ast.Attribute) and c.attr == "cost"):
+            return False
+        if ast.unparse(p.value) != ast.unparse(c.value):
+            return False
+        if not (isinstance(f, ast.Call) and isinstance(f.func, ast.Name) and f.func.id == "calculate_fitness" and f.args and
+                ast.unparse(f.args[0]) == ast.unparse(c)):
+            return False
+        # carrier classes of the module: every method that assigns a private position-like field from `<x>.position`
+        # assigns the cost-like field from `<x>.cost` in the same method, and no other method assigns either
+        mi = self.src.modules[owner.module]
+        for c_ in mi.classes.values():
+            writers = {}
+            for mname, m in c_.methods.items():
+                for n in ast.walk(m):
+                    if isinstance(n, ast.Assign) and len(n.targets) == 1 and isinstance(n.targets[0], ast.Attribute) and \
+                            isinstance(n.targets[0].value, ast.Name) and n.targets[0].value.id == "self" and \
+                            isinstance(n.value, ast.Attribute) and n.value.attr in ("position", "cost"):
+                        writers.setdefault(mname, set()).add(n.value.attr + ":" + ast.unparse(n.value.value))
+            if writers:
+                ok = all(len({x.split(":")[1] for x in v}) == 1 and {x.split(":")[0] for x in v} == {"position", "cost"}
+                         for v in writers.values())
+                if ok:
+                    return True
+        return False
 
     # ---- CALLS --------------------------------------------------------------------------------------------------------------------
     def calls(self, ci, owner, fname, fdef):
